@@ -97,6 +97,13 @@ class Models:
 
         def inv(q):     # an arbitrary (bad) hint is allowed: the quantiser only uses it as a starting point
             return mn + (n - 1) * (q if hint < 0.5 else 1.0 - q) + (hint - 0.5) * 7
+        if self.rng.random() < 0.4:
+            # the same model through ScipyModel, which takes an object with `cdf` and `ppf` methods (duck-typed like scipy.stats)
+            class Dist:
+                pass
+            dist = Dist(); dist.cdf = cdf; dist.ppf = inv
+            self.rep.cls("model_leaky_via_ScipyModel")
+            return M.ScipyModel(dist, mn, mn + n - 1)
         return M.CustomModel(cdf, inv, mn, mn + n - 1)
 
     def spec(self, d):
